@@ -43,6 +43,10 @@ fn main() {
         "drive_huffman" => symbol_replay::drive_huffman(seed, &optc::<String>(&argv, "--trace").unwrap()),
         "selftest_tiny" => selftest::selftest_tiny(),
         "drive_models" => drive_models::drive_models(seed, n as usize, &optc::<String>(&argv, "--trace").unwrap()),
+        "drive_range_steered" => {
+            let w: u32 = optc(&argv, "--w").unwrap(); let s: u32 = optc(&argv, "--s").unwrap(); let p: usize = optc(&argv, "--p").unwrap();
+            drive::drive_range_steered(w, s, p, seed, argv.iter().any(|a| a == "--long"), &optc::<String>(&argv, "--trace").unwrap())
+        }
         "drive_bound" => drive::drive_bound(seed, n as usize),
         "drive_chain" => {
             let w: u32 = optc(&argv, "--w").unwrap(); let s: u32 = optc(&argv, "--s").unwrap();
